@@ -23,6 +23,7 @@ import (
 
 var (
 	outDir   = flag.String("out", "", "output directory")
+	stmtYield = flag.Bool("stmts", false, "additionally make every statement of every block a scheduling point (request handlers without channel operations)")
 	mapRange = flag.String("maprange", "", "comma separated selector suffixes of maps whose key-only range is made deterministic, e.g. b.subscriptions")
 	pkgAlias = "simrt"
 )
@@ -355,6 +356,32 @@ func (rw *rewriter) rewriteRecvExprs(n ast.Node) {
 	})
 }
 
+// yieldBeforeStatements inserts simrt.Yield("file:line") in front of every statement of every block.
+func (rw *rewriter) yieldBeforeStatements(f *ast.File) {
+	ast.Inspect(f, func(n ast.Node) bool {
+		b, ok := n.(*ast.BlockStmt)
+		if !ok {
+			return true
+		}
+		for _, st := range b.List {
+			switch st.(type) {
+			case *ast.CaseClause, *ast.CommClause:
+				return true // the body of a switch or select: clauses, not statements
+			}
+		}
+		var list []ast.Stmt
+		for _, st := range b.List {
+			if st.Pos().IsValid() {
+				list = append(list, &ast.ExprStmt{X: call(sel("Yield"), rw.site(st.Pos()))})
+				rw.changed = true
+			}
+			list = append(list, st)
+		}
+		b.List = list
+		return true
+	})
+}
+
 func process(path string, maps map[string]bool) (out []byte, err error) {
 	defer func() {
 		if p := recover(); p != nil {
@@ -388,6 +415,9 @@ func process(path string, maps map[string]bool) (out []byte, err error) {
 		}
 	}
 	rw.rewriteRecvExprs(f)
+	if *stmtYield {
+		rw.yieldBeforeStatements(f)
+	}
 	if rw.changed {
 		imp := &ast.GenDecl{Tok: token.IMPORT, Specs: []ast.Spec{&ast.ImportSpec{Name: ast.NewIdent(pkgAlias), Path: &ast.BasicLit{Kind: token.STRING, Value: `"verifsim/simrt"`}}}}
 		f.Decls = append([]ast.Decl{imp}, f.Decls...)
